@@ -39,6 +39,19 @@ def generate(rnd, tier):
         text = "".join(rnd.choice("ab \n") for _ in range(rnd.randint(0, 14)))
         cases.append({"op": "write", "target": tgt, "text": text, "row": rnd.choice([None, rnd.randint(0, 8)]), "col": rnd.choice([None, rnd.randint(0, 11)]),
                       "width": rnd.choice([None, None, 0, 1, 2, 3, 6, -1]), "maxw": rnd.choice([None, None, None, 0, 4, 12]), "block": rnd.random() < 0.5})
+    # sequences of draws and writes on one widget object (what one operation leaves behind must not matter to the next); a source widget may be drawn twice
+    for _ in range(1500 if tier == "quick" else 20000):
+        steps = []
+        for i in range(rnd.randint(2, 5)):
+            if rnd.random() < 0.55:
+                st = {"op": "draw", "src": ggrid(4, 6), "row": rnd.choice([None, rnd.randint(0, 8)]), "col": rnd.choice([None, 0, 0, rnd.randint(0, 9)]), "block": rnd.random() < 0.5}
+                prev = [j for j, p_ in enumerate(steps) if p_["op"] == "draw" and p_.get("src_ref") is None]
+                if prev and rnd.random() < 0.25: st["src_ref"] = rnd.choice(prev); st["src"] = steps[st["src_ref"]]["src"]
+            else:
+                st = {"op": "write", "text": "".join(rnd.choice("ab \n") for _ in range(rnd.randint(1, 8))), "row": rnd.choice([None, rnd.randint(0, 8)]),
+                      "col": rnd.choice([None, rnd.randint(0, 9)]), "width": rnd.choice([None, None, 1, 2, 3, 6]), "block": rnd.random() < 0.5}
+            steps.append(st)
+        cases.append({"op": "gridseq", "target": {"buf": ggrid(3, 5), "cur": [rnd.randint(0, 4), rnd.randint(0, 6)]}, "steps": steps})
     return cases
 
 
@@ -47,6 +60,16 @@ compare = plain_compare
 
 
 def monitor(case, obs):
+    if case["op"] == "gridseq":
+        # each operation is judged on what the widget showed just before it; the source widgets are left as they were
+        tgt = case["target"]
+        for i, (st, o) in enumerate(zip(case["steps"], obs["steps"])):
+            v = monitor(dict(st, target=tgt), o)
+            if v: return "operation #%d (%s) of the sequence: %s" % (i, st["op"], v)
+            tgt = {"buf": o["lines"], "cur": o["cur"]}
+        for i, lines in obs["srcs_after"].items():
+            if lines != case["steps"][int(i)]["src"]: return "the source widget drawn by operation #%s shows %r afterwards; it showed %r" % (i, lines, case["steps"][int(i)]["src"])
+        return None
     tgt = case["target"]; old = [list(l) for l in tgt["buf"]]
     row = case.get("row"); col = case.get("col")
     if row is None: row = tgt["cur"][0]
@@ -101,11 +124,16 @@ def monitor(case, obs):
     return None
 
 
-def nontrivial(case, obs): return obs.get("lines") != case["target"]["buf"]
+def nontrivial(case, obs): return (obs["steps"][-1] if case["op"] == "gridseq" else obs).get("lines") != case["target"]["buf"]
 def outcome(case, obs): return case["op"] + ("/changed" if nontrivial(case, obs) else "/unchanged")
 
 
 def shrink(case):
+    if case["op"] == "gridseq":
+        for i in range(len(case["steps"])):
+            if any(st.get("src_ref") is not None for st in case["steps"]): break
+            yield {**case, "steps": case["steps"][:i] + case["steps"][i + 1:]}
+        return
     if case["op"] == "write":
         for s in shrink_string(case["text"]): yield {**case, "text": s}
     b = case["target"]["buf"]
